@@ -391,6 +391,18 @@ class EffectAnalysis:
             if recv is None:
                 continue
             origin = self.taint(f, recv, locals_)
+            if origin is None and kind == "attribute store":
+                # attribute store on a class, a module, type(self) or self.__class__: state shared by all instances
+                if isinstance(recv, ast.Name) and recv.id not in locals_:
+                    tgt = self.res.modnames.get(f.module, {}).get(recv.id)
+                    if tgt and tgt[0] == "class":
+                        origin = f"class object {recv.id} (shared by all instances and threads)"
+                    elif recv.id in self.ce.module_env(f.module) and not isinstance(self.ce.module_env(f.module)[recv.id], Ref):
+                        origin = f"module-level object {recv.id}"
+                elif isinstance(recv, ast.Attribute) and recv.attr == "__class__":
+                    origin = "the instance's class object"
+                elif isinstance(recv, ast.Call) and isinstance(recv.func, ast.Name) and recv.func.id == "type":
+                    origin = "the instance's class object"
             if origin and origin.startswith("elements of a copy"):
                 origin = None  # mutating the fresh copy itself is harmless
             if origin:
